@@ -163,7 +163,12 @@ def run_check(prop: Prop, tier, seed, replay=None):
         rj = json.loads(open(replay).read())
         cases = [Case(x["line"], "replay", x.get("text")) for x in rj.get("cases", [])]
     else:
-        cases = prop.corpus() + prop.cases(rng, tier)
+        try:
+            cases = prop.corpus() + prop.cases(rng, tier)
+        except Exception as e:  # the machinery itself must never be the reason for a non-zero exit
+            import traceback
+            obligations.append(("case generation ran", False, traceback.format_exc()[-900:]))
+            cases = []
     lines = [c.line for c in cases]
     impl, model = [], []
     corr_fail = []
@@ -184,7 +189,11 @@ def run_check(prop: Prop, tier, seed, replay=None):
         if len(drv) != len(lines):
             obligations.append(("driver answered every case", False, f"{len(drv)}/{len(lines)} rc={rc2} {err2[-300:]}"))
         n = min(len(impl), len(drv), len(lines))
-        prop.prepare(cases[:n], impl[:n])
+        try:
+            prop.prepare(cases[:n], impl[:n])
+        except Exception as e:
+            import traceback
+            obligations.append(("oracle preparation ran", False, traceback.format_exc()[-900:]))
         for i in range(n):
             c = cases[i]
             parts = drv[i].split("\t")
@@ -224,7 +233,11 @@ def run_check(prop: Prop, tier, seed, replay=None):
 
     scen = None
     if ok and os.path.exists(C.driver_bin()):
-        scen = prop.scenarios(C.SplitMix64(seed).fork("scenarios"), tier)
+        try:
+            scen = prop.scenarios(C.SplitMix64(seed).fork("scenarios"), tier)
+        except Exception as e:
+            import traceback
+            obligations.append(("scenarios ran", False, traceback.format_exc()[-900:]))
     if scen:
         for k, v in scen.get("dist", {}).items():
             dist[k] = dist.get(k, 0) + v
